@@ -195,7 +195,7 @@ def parse_vspec(path):
                 h = {"in_fn": kv["in"].replace("~", " "), "text": "", "name": kv["name"],
                      "generics": kv.get("generics", "").replace("~", " "),
                      "args": kv.get("args", "").replace("~", " "), "sig": "", "spec": "",
-                     "method_of": kv.get("method_of", "")}
+                     "method_of": kv.get("method_of", "").replace("~", " ")}
                 cur_src["expr_hoists"].append(h)
                 mode = ("exprh", h)
             elif d == "outline":
